@@ -176,6 +176,10 @@ class Codec:
             if cksum_end != -1:
                 next_msg = cksum_end + 1
                 frame_closed = True
+            else:
+                # the CheckSum field is not terminated yet: wait for its SOH
+                assert silent, "incomplete CheckSum field"
+                return (None, valid_idx, None)
 
         encoded_msg = rawmsg[valid_idx : next_msg + valid_idx]
 
